@@ -398,8 +398,9 @@ pub fn run_c17(ctx: &mut Ctx) -> (String, Value, Vec<String>) {
     for c in uni_bases(ctx.quick()) {
         let mut lims = vec![LIMIT, 31, 14, 7];
         if let Ok(Outcome::Ok(r)) = catch(|| run_uni(&c)) {
-            for l in [r, r + 1, r + 3, 2 * r + 1] {
-                if l > 0 && !lims.contains(&l) {
+            for l in [r, r.saturating_add(1), r.saturating_add(3), r.saturating_mul(2).saturating_add(1)] {
+                // (a wrapped-around "bound" must not become a divergence limit)
+                if l > 0 && l <= 4 * LIMIT && !lims.contains(&l) {
                     lims.push(l);
                 }
             }
